@@ -1077,6 +1077,17 @@ ANIcreate(int32    file_id,  /* IN: file ID */
     if (HAatom_group(file_id) != FIDGROUP)
         HGOTO_ERROR(DFE_ARGS, FAIL);
 
+    /* a new annotation can only be stored in a file that is open for writing:
+       refuse here instead of handing out an id whose ANwriteann must fail */
+    {
+        filerec_t *file_rec = HIfid2rec(file_id);
+
+        if (BADFREC(file_rec))
+            HGOTO_ERROR(DFE_ARGS, FAIL);
+        if (!(file_rec->access & DFACC_WRITE))
+            HGOTO_ERROR(DFE_DENIED, FAIL);
+    }
+
     /* deal with type */
     switch ((ann_type)type) {
         case AN_DATA_LABEL:
